@@ -8,7 +8,9 @@
    incumbent, INFEASIBLE only without one) - the harness checks exactly that, plus the gate and the exact oracle.
 
    `_solve_bounded_master_lp` builds its phase-1 objective by looking for the row r with abs(tab[r][art_col] - 1.0) < eps;
-   without column bounds that is row i of artificial i (for eps > 0), i.e. the same tableau as cg's master: `master_lp true`. *)
+   without column bounds that is row i of artificial i (for eps > 0), i.e. the same tableau as cg's master: `master_lp true`.
+   (For eps = 0 the code's test `... < eps` never succeeds and its phase-1 objective stays zero; `master_lp true 0` is the
+   eps -> 0 limit of the model, not the code run with eps = 0.  The harness only runs the code with its default eps = 1e-9.) *)
 From Coq Require Import List ZArith QArith Qabs Qround Bool Arith.
 From SV Require Import C17.Cg.
 Import ListNotations.
